@@ -43,6 +43,7 @@ type Entry struct {
 	// snapshot only:
 	Sum  string // hex sha256 of Data (snapshots of big files drop Data)
 	Size int64
+	Ino  uint64 // identity of the file system object (never compared by Diff)
 }
 
 type Tree []Entry
@@ -187,7 +188,7 @@ func Snapshot(root string, keepData bool) (Tree, error) {
 			return nil
 		}
 		st := info.Sys().(*syscall.Stat_t)
-		e := Entry{Path: filepath.ToSlash(rel), Mode: uint32(st.Mode & 0o7777), Mtime: st.Mtim.Sec, Nsec: st.Mtim.Nsec, Uid: int(st.Uid), Gid: int(st.Gid), Size: st.Size}
+		e := Entry{Path: filepath.ToSlash(rel), Mode: uint32(st.Mode & 0o7777), Mtime: st.Mtim.Sec, Nsec: st.Mtim.Nsec, Uid: int(st.Uid), Gid: int(st.Gid), Size: st.Size, Ino: st.Ino}
 		switch st.Mode & syscall.S_IFMT {
 		case syscall.S_IFREG:
 			e.Type = Reg
